@@ -490,27 +490,33 @@ Definition trim (s : str) : str :=
 (* `u32::from_str_radix(x, 16)`: an optional leading `+`, then at least one hex digit, nothing else
    (at most 8 bytes are ever passed, so the value fits u32). *)
 Definition parse_hex_u32 (x : str) : option N :=
-  let ds := match x with 43 :: t => t | _ => x end in
+  let ds := match x with b :: t => if b =? 43 then t else x | [] => x end in
   match ds with
   | [] => None
   | _ => if forallb is_ascii_hexdigit ds then Some (hex_val ds) else None
   end.
 
-(* the shared `\u` / `\U` branch: Ok (Some (decoded char, bytes consumed after the backslash)) *)
-Definition lexical_uescape (escape : str) (e : N) (en : nat) : res (option (N * nat)) :=
+(* the shared escape branch (backslash-u / backslash-U): Ok (Some (decoded char, bytes consumed after the backslash)).
+   `checked = true` is the code since 484100d: `hexadecimal.get(..digits)` - a prefix that does not end on a
+   character boundary is not an escape (falls through to the plain path).  `checked = false` is the code before
+   that commit: `&hexadecimal[..digits]`, which panics there (kept for the regression lemma only). *)
+Definition lexical_uescape (checked : bool) (escape : str) (e : N) (en : nat) : res (option (N * nat)) :=
   if (e =? 117) || (e =? 85) then
     let digits := if e =? 117 then 4%nat else 8%nat in
     do hexadecimal <- lift (slice_from escape en);
     if (digits <=? length hexadecimal)%nat then
-      do hx <- lift (slice_to hexadecimal digits);     (* &hexadecimal[..digits] - the bytes are not known to be ASCII here *)
-      match parse_hex_u32 hx with
-      | Some v => if scalarb v then Ok (Some (v, (en + digits)%nat)) else Ok None
-      | None => Ok None
+      match slice_to hexadecimal digits with
+      | Some hx =>
+          match parse_hex_u32 hx with
+          | Some v => if scalarb v then Ok (Some (v, (en + digits)%nat)) else Ok None
+          | None => Ok None
+          end
+      | None => if checked then Ok None else Panic
       end
     else Ok None
   else Ok None.
 
-Fixpoint unescape_iri_loop (fuel : nat) (value : str) (index : nat) (acc : str) : res str :=
+Fixpoint unescape_iri_loop (checked : bool) (fuel : nat) (value : str) (index : nat) (acc : str) : res str :=
   match fuel with
   | O => Fuel
   | S f =>
@@ -519,24 +525,25 @@ Fixpoint unescape_iri_loop (fuel : nat) (value : str) (index : nat) (acc : str) 
         match next_char tail with
         | None => Panic
         | Some (c, n) =>
-            if negb (c =? 92) then unescape_iri_loop f value (index + n) (acc ++ encode_char c)
+            if negb (c =? 92) then unescape_iri_loop checked f value (index + n) (acc ++ encode_char c)
             else
               do escape <- lift (slice_from tail 1);
               match next_char escape with
               | None => Ok (acc ++ [92])
               | Some (e, en) =>
-                  do u <- lexical_uescape escape e en;
+                  do u <- lexical_uescape checked escape e en;
                   match u with
-                  | Some (v, used) => unescape_iri_loop f value (index + 1 + used) (acc ++ encode_char v)
-                  | None => unescape_iri_loop f value (index + 1 + en) (acc ++ encode_char e)
+                  | Some (v, used) => unescape_iri_loop checked f value (index + 1 + used) (acc ++ encode_char v)
+                  | None => unescape_iri_loop checked f value (index + 1 + en) (acc ++ encode_char e)
                   end
               end
         end
       else Ok acc
   end.
-Definition unescape_iri (value : str) : res str := unescape_iri_loop (S (length value)) value O [].
+Definition unescape_iri_gen (checked : bool) (value : str) : res str := unescape_iri_loop checked (S (length value)) value O [].
+Definition unescape_iri : str -> res str := unescape_iri_gen true.
 
-Fixpoint lexical_loop (fuel : nat) (literal delimiter : str) (index : nat) (acc : str) : res str :=
+Fixpoint lexical_loop (checked : bool) (fuel : nat) (literal delimiter : str) (index : nat) (acc : str) : res str :=
   match fuel with
   | O => Fuel
   | S f =>
@@ -552,7 +559,7 @@ Fixpoint lexical_loop (fuel : nat) (literal delimiter : str) (index : nat) (acc 
                 match next_char escape with
                 | None => Ok (acc ++ [92])
                 | Some (e, en) =>
-                    let continue_with (out : str) := lexical_loop f literal delimiter (index + 1 + en) (acc ++ out) in
+                    let continue_with (out : str) := lexical_loop checked f literal delimiter (index + 1 + en) (acc ++ out) in
                     if e =? 116 then continue_with [9]
                     else if e =? 98 then continue_with [8]
                     else if e =? 110 then continue_with [10]
@@ -562,23 +569,24 @@ Fixpoint lexical_loop (fuel : nat) (literal delimiter : str) (index : nat) (acc 
                     else if e =? 39 then continue_with [39]
                     else if e =? 92 then continue_with [92]
                     else
-                      do u <- lexical_uescape escape e en;
+                      do u <- lexical_uescape checked escape e en;
                       match u with
-                      | Some (v, used) => lexical_loop f literal delimiter (index + 1 + used) (acc ++ encode_char v)
+                      | Some (v, used) => lexical_loop checked f literal delimiter (index + 1 + used) (acc ++ encode_char v)
                       | None => continue_with (92 :: encode_char e)
                       end
                 end
-              else lexical_loop f literal delimiter (index + n) (acc ++ encode_char c)
+              else lexical_loop checked f literal delimiter (index + n) (acc ++ encode_char c)
           end
       else Ok acc
   end.
 
-Definition literal_lexical_value (literal : str) : res str :=
+Definition literal_lexical_value_gen (checked : bool) (literal : str) : res str :=
   match literal with
   | quote :: _ =>
       if (quote =? 34) || (quote =? 39) then
         let delimiter := if starts_with [quote; quote; quote] literal then [quote; quote; quote] else [quote] in
-        lexical_loop (S (length literal)) literal delimiter (length delimiter) []
+        lexical_loop checked (S (length literal)) literal delimiter (length delimiter) []
       else Ok literal
   | [] => Ok literal
   end.
+Definition literal_lexical_value : str -> res str := literal_lexical_value_gen true.
